@@ -8,6 +8,7 @@ from common import CACHE
 from gen import pyref
 from gen.util import short
 
+DRIVERS = ["C18", "C18v"]
 NEEDS = dict(cli=True, harness=False, shim=True, release=True)
 RULE = ("prefixes: all 16 single hex digits in both cases, 2- and 3-digit prefixes in lower/upper/mixed case, the empty prefix; "
         "x thread counts {0,1,2,16} x word counts {12,15,18,21,24} x selectors (default, --vanity-account-index, "
@@ -180,6 +181,24 @@ def run(ctx):
         reqs = [l.split() for l in lines if l]
         if [int(x[1]) for x in reqs] != [elen] * (k + 1):
             ctx.violation("scripted-request-log", case, "%d requests of %d bytes" % (k + 1, elen), reqs[:6])
+    # the Gallina search (Model/Vanity.v instantiated with the real account pipeline) on the same scripted entropy
+    vt, vmeta = [], []
+    for i, ((p, j, n), r) in enumerate(zip(exact, res)):
+        if i % 2 or r.cls != "ok":
+            continue
+        elen = n * 4 // 3
+        lines = open(os.path.join(tmp, "log%d" % i)).read().split("\n") if os.path.exists(os.path.join(tmp, "log%d" % i)) else []
+        k = len([l for l in lines if l])
+        if k == 0 or k > 24:
+            continue
+        ents = "[" + "; ".join("Some %s" % pb(counter_entropy(q, elen)) for q in range(k)) + "]"
+        vt.append("c18_search %s %s SelDefault %s" % (tx(p), tx(""), ents))
+        vmeta.append((p, j, n, r))
+    for (p, j, n, r), m in zip(vmeta, ctx.model(vt, label="C18v", timeout=1800)):
+        ctx.count("scripted/model-search")
+        if m is not None and (m.tag != "ok" or m.fields[0] + b"\n" != r.stdout):
+            ctx.violation("scripted-search-vs-model", dict(op="new --vanity-prefix under scripted entropy", prefix=p, threads=j, words=n),
+                          str(m)[:300], str(r)[:300])
     mm = ctx.model(["c18_matches %s %s" % (tx(p), pb(a)) for p, a in nonmatch], label="C18nomatch")
     for (p, a), m in zip(nonmatch, mm):
         ctx.count("model-matcher/rejected-candidate")
